@@ -9,6 +9,7 @@ request                                                          reply
 `exact <stype> Q dT wn x…`                                       `y…`      (closed-form oscillator stepping)
 `srs <stype> <ic> <peak> <time> <eqsine 0|1> Q sr <nf> f… f x…`  `pk h…` or `none`
 `tail <stype> <ic> <peak> <time> <eqsine> Q sr <nf> f… f s1 <0|1> icv x…`  same, after `_process_ic` and roll-off
+`vrs Q fn f0 psd0 f1 psd1 …`                                       `z` or `none`
 `nz sr <nf> f…`                                                  `<nzeros>`
 anything else → `bad-op` -/
 open PyYetiVerif.Srs
@@ -87,6 +88,15 @@ def answer (line : String) : String :=
             | some (h, p) => pure (fmtFs (p :: h))
             | none => pure "none"
         | _ => none
+    | "vrs" :: q :: fn :: rest => do
+        let q ← parseF q; let fn ← parseF fn
+        let xs ← parseFs rest
+        let rec pairs : List Float → List (Float × Float)
+          | a :: b :: t => (a, b) :: pairs t
+          | _ => []
+        match vrsOne q fn (pairs xs) with
+        | some z => pure (fmtF z)
+        | none => pure "none"
     | "nz" :: sr :: nf :: rest => do
         let sr ← parseF sr; let nf ← nf.toNat?
         let fs ← parseFs (rest.take nf)
